@@ -445,7 +445,7 @@ fn refresh_path_cases() -> Vec<Case> {
 
 pub fn run(ctx: &Ctx, rep: &mut Report) {
     engine::enumerate(ctx, rep, "refresh-paths", refresh_path_cases().into_iter(), check_case);
-    let cases = ctx.share(ctx.tier.pick(6_000, 200_000));
+    let cases = ctx.share(ctx.tier.pick(6_000, 400_000));
     engine::drive_opts(ctx, rep, "histories", case_strategy(), cases, check_case, true);
 }
 
